@@ -183,14 +183,27 @@ class Interp:
         if obj.asserts_state != 0:
             return
         obj.asserts_state = 1
+        # The specification requires every assertion of every layer to hold and fixes no order among them: when
+        # several fail (differently), which failure is reported is an evaluation-order detail, so that case is
+        # reported as kind "other" (the caller then compares only "fails").
+        failures = []
         try:
             for i, layer in enumerate(obj.layers):
                 for a in layer.asserts:
                     env = self.layer_env(obj, i)
-                    self.run_assert(a, env)
+                    try:
+                        self.run_assert(a, env)
+                    except JError as e:
+                        if (e.kind, e.message) not in failures:
+                            failures.append((e.kind, e.message))
         except BaseException:
             obj.asserts_state = 0
             raise
+        if failures:
+            obj.asserts_state = 0
+            if len(failures) == 1:
+                raise JError(*failures[0])
+            raise JError("other", f"several assertions fail: {failures!r}")
         obj.asserts_state = 2
 
     def run_assert(self, a, env):
